@@ -1,6 +1,8 @@
 package main
 
 import (
+	"fmt"
+	"os"
 	"go/types"
 	"sort"
 
@@ -32,6 +34,9 @@ func (w *world) funcValueCandidates(sig *types.Signature) (out []*ssa.Function, 
 				for _, ins := range b.Instrs {
 					if mc, ok := ins.(*ssa.MakeClosure); ok {
 						note(mc)
+					}
+					if _, ok := ins.(*ssa.DebugRef); ok {
+						continue // source-position bookkeeping, not a use
 					}
 					var ops []*ssa.Value
 					ops = ins.Operands(ops)
@@ -77,11 +82,33 @@ func (w *world) funcValueCandidates(sig *types.Signature) (out []*ssa.Function, 
 		if !same(fn.Signature) {
 			continue
 		}
+		if fn.Pkg != nil && !w.inModule(fn.Pkg.Pkg.Path()) && fn.Synthetic == "" {
+			// a function of another module used as a value: calling it is an external call (no effect on the modelled
+			// heap, like every external call)
+			continue
+		}
 		if w.funcs[fn.String()] != fn || fn.Blocks == nil || fn.Signature.Recv() != nil {
+			if os.Getenv("GRITSVC_DEBUG_FUNCVALS") != "" {
+				fmt.Fprintf(os.Stderr, "funcvals: %s is used as a value but is not a module function with a body\n", fn.String())
+			}
 			complete = false
 			continue
 		}
 		out = append(out, fn)
 	}
 	return out, complete
+}
+
+// externalFuncValue: v is the (component of the) result of a call to a function of another module - a function made
+// there (context.WithCancel's cancel). Calling it is an external call.
+func (w *world) externalFuncValue(v ssa.Value) bool {
+	if ex, ok := v.(*ssa.Extract); ok {
+		v = ex.Tuple
+	}
+	c, ok := v.(*ssa.Call)
+	if !ok || c.Call.IsInvoke() {
+		return false
+	}
+	f := c.Call.StaticCallee()
+	return f != nil && f.Pkg != nil && !w.inModule(f.Pkg.Pkg.Path())
 }
